@@ -1,6 +1,7 @@
 import Driver.Proto
 import PdtVerif.Model.NgramTrie
 import PdtVerif.Model.NgramFlatCheck
+import PdtVerif.Model.NgramBuildMem
 import PdtVerif.Spec.Backoff
 import PdtVerif.Model.NgramArpa
 /-! Driver for C06: builds the flat trie from a table, evaluates the lookup model
@@ -36,10 +37,44 @@ def buffersJ (b : Buffers) : Json := objJ [
 
 def full3J (x : List (List (List LogP))) : Json := listJ (listJ (listJ lpJ)) x
 
+def itemJ (e : Item) : Json := objJ [("key", listJ intJ e.key), ("logp", lpJ e.logp), ("logb", lpJ e.logb)]
+
+/-- What the caller sees of the table it handed over (list object 0, dict objects 0 … n-1). -/
+def callerJ (m : Mem) (n : Nat) : Json := objJ [
+  ("outer_len", natJ (m.list 0).length),
+  ("dicts", listJ (listJ itemJ) ((List.range n).map m.dict))]
+
+/-- The Katz recursion on a raw table for every position of every history. -/
+def specFullOf (dicts : List (List Item)) (V : Nat) (sos : Int) (B : Nat) (hist : List (List Int)) :
+    List (List (List (Option Rat))) :=
+  let tbl := PdtVerif.Backoff.ofList (tableOf dicts)
+  (List.range (hist.length + 1)).map (fun t => (List.range B).map (fun bb =>
+    PdtVerif.Backoff.row tbl V (PdtVerif.Backoff.context dicts.length sos (col hist bb) t)))
+
+/-- Later constructions from the SAME table object: `{sos, destructive, hist}` each. Threads the heap. -/
+def runSteps (V B n0 : Nat) (raw : List (List Item)) : Mem → List (Int × Bool × List (List Int)) → List Json
+  | _, [] => []
+  | m, (sos, d, hist) :: rest =>
+    let now := m.table 0
+    let r := buildTrieMem d V sos m 0
+    let common := [("table_is_raw", boolJ (decide (now = raw))), ("table_after", callerJ r.2 n0)]
+    let j := match r.1 with
+      | none => objJ ([("build", Json.null)] ++ common)
+      | some b =>
+        let full := fullChunked b V sos B hist 1
+        objJ ([("build", buffersJ b), ("full", full3J full),
+               ("chunk2_agree", boolJ (decide (fullChunked b V sos B hist 2 = full))),
+               ("table_ok", boolJ (tableOK now)),
+               ("spec_full", listJ (listJ (listJ optJ')) (specFullOf now V sos B hist))] ++ common)
+    j :: runSteps V B n0 raw r.2 rest
+
 /-- case: {V, sos, dicts: [[{key, logp, logb?}..]..], B, hist: [[..]..] (T rows of B),
-chunks: [c..], idxs: [[i..]..], view?: {storage: [..], off, sT, sB}}.
-Reply: {build: null | buffers, shape, full, chunk_agree: [bool], byidx_agree, idx: [rows..],
-spec_full} -/
+chunks: [c..], idxs: [[i..]..], view?: {storage: [..], off, sT, sB}, destructive?: bool,
+steps?: [{sos, destructive, hist}]}.
+The construction is the procedure `buildTrieMem` on a heap that holds the caller's table; the later
+`steps` construct again from the same table object.
+Reply: {build: null | buffers, table_after, steps: [..], shape, full, chunk_agree: [bool], byidx_agree,
+idx: [rows..], spec_full} -/
 def c06Table : Handler := fun c => do
   let V ← getNat c "V"
   let sos ← getInt c "sos"
@@ -48,8 +83,25 @@ def c06Table : Handler := fun c => do
   let hist ← getList (jsonToList jsonToInt) c "hist"
   let chunks ← getNatList c "chunks"
   let idxs ← getList (jsonToList jsonToNat) c "idxs"
-  match buildTrie V sos dicts with
-  | none => pure (objJ [("build", Json.null)])
+  let destructive ← match fieldOpt c "destructive" with
+    | some (Json.bool x) => pure x
+    | _ => pure false
+  let steps ← match fieldOpt c "steps" with
+    | none => pure []
+    | some (Json.arr a) => a.toList.mapM (fun sj => do
+        let s ← getInt sj "sos"
+        let d ← match fieldOpt sj "destructive" with
+          | some (Json.bool x) => pure x
+          | _ => pure false
+        let h ← getList (jsonToList jsonToInt) sj "hist"
+        pure (s, d, h))
+    | some _ => throw "steps: expected a list"
+  let n0 := dicts.length
+  let first := buildTrieMem destructive V sos (Mem.ofTable dicts) 0
+  let stepsJ := runSteps V B n0 dicts first.2 steps
+  let after := [("table_after", callerJ first.2 n0), ("steps", Json.arr stepsJ.toArray)]
+  match first.1 with
+  | none => pure (objJ ([("build", Json.null)] ++ after))
   | some b =>
     let shape := inferShape V sos b.offsets b.ids.size b.logps.size
     let shapeJ := match shape with
@@ -68,23 +120,19 @@ def c06Table : Handler := fun c => do
     let flatAgree := decide (fullChunked b V sos B hist 1 = full)
     let byIdx := decide (fullByIdx b V sos B hist = full)
     let idxRes := idxs.map (fun hidx => calcIdx b V sos B hist hidx)
-    -- the oracle: Katz recursion on the raw table, raw contexts
-    let N := dicts.length
-    let tbl := PdtVerif.Backoff.ofList (tableOf dicts)
     -- translation validation of the flat layer (hypothesis of theorem C06_lookup_checked)
     let flatOk := checkBuilt V sos dicts b
     -- the hypotheses of theorems C06_flat / C06_lookup / C06_model on this table
     let hypOk := tableOK dicts
-    let T := hist.length
-    let specFull := (List.range (T + 1)).map (fun t => (List.range B).map (fun bb =>
-      PdtVerif.Backoff.row tbl V (PdtVerif.Backoff.context N sos (col hist bb) t)))
-    pure (objJ [
+    -- the oracle: Katz recursion on the raw table, raw contexts
+    let specFull := specFullOf dicts V sos B hist
+    pure (objJ ([
       ("build", buffersJ b), ("shape", shapeJ), ("full", full3J full),
       ("chunk_agree", listJ boolJ chunkAgree), ("byidx_agree", boolJ byIdx),
       ("view_rows_ok", boolJ viewOk), ("view_contig", boolJ view.isContig),
       ("flat_agree", boolJ flatAgree), ("flat_check", boolJ flatOk), ("table_ok", boolJ hypOk),
       ("idx", listJ (listJ (listJ lpJ)) idxRes),
-      ("spec_full", listJ (listJ (listJ optJ')) specFull)])
+      ("spec_full", listJ (listJ (listJ optJ')) specFull)] ++ after))
 
 open PdtVerif.NgramArpa in
 def parseField (j : Json) : Except String Field := do
